@@ -159,7 +159,10 @@ def main():
         else:
             for name in names:
                 out[name] = run(name, targets.get(name), tier)
-        json.dump(out, open(os.path.join(VERIF, "seeded", f"RESULTS-{tier}.json"), "w"), indent=1, sort_keys=True)
+        rp = os.path.join(VERIF, "seeded", f"RESULTS-{tier}.json")
+        if only and os.path.exists(rp):
+            out = dict(json.load(open(rp)), **out)  # a partial run updates the recorded results, it does not replace them
+        json.dump(out, open(rp, "w"), indent=1, sort_keys=True)
         missed = {k: v for k, v in out.items() if "caught" not in v.values()}
         print(f"{len(out) - len(missed)}/{len(out)} seeded changes caught; not caught: {sorted(missed)}")
 
